@@ -203,7 +203,12 @@ def harness_build(repo, P):
         modfile = os.path.join(bdir, name + ".mod")
         if not os.path.exists(modfile) or open(modfile).read().split("\nrequire (")[0] != tmpl.split("\nrequire (")[0]:
             open(modfile, "w").write(tmpl)
-        shutil.copyfile(os.path.join(repo, "go.sum"), os.path.join(bdir, name + ".sum"))
+        sums = open(os.path.join(repo, "go.sum")).read()
+        for extra in getattr(P, "EXTRA_SUMS", []):
+            ep = os.path.join(repo, extra)
+            if os.path.exists(ep):
+                sums += open(ep).read()
+        open(os.path.join(bdir, name + ".sum"), "w").write(sums)
         binp = os.path.join(bdir, name)
         rc, out = run(["go", "build", "-modfile=" + modfile, "-tags", "verif", "-o", binp, "./cmd/" + name],
                       900, cwd=modsrc, env=GOENV)
